@@ -32,7 +32,7 @@ ASSUMPTIONS = [
 
 
 def budget(tier):
-    return {"examples": 120 if tier == "quick" else 2500}
+    return {"examples": 600 if tier == "quick" else 8000}
 
 
 def essential_labels(tier):
